@@ -35,10 +35,10 @@ type NodeDef struct {
 }
 
 type Call struct {
-	Op     string `json:"op"`
-	Kind   string `json:"kind"`
-	Choice int    `json:"choice"`
-	F      int      `json:"f,omitempty"`   // faults: the node hit and its definition before the fault
+	Op     string   `json:"op"`
+	Kind   string   `json:"kind"`
+	Choice int      `json:"choice"`
+	F      int      `json:"f,omitempty"` // faults: the node hit and its definition before the fault
 	N      int      `json:"n,omitempty"`
 	Was    *NodeDef `json:"was,omitempty"`
 }
@@ -116,14 +116,15 @@ type M = map[string]any
 
 // MatOpts selects the decorations that property-specific checks add to the generated flows
 type MatOpts struct {
-	FlowType    string // messaging (default) or voice
-	RenderCtx   bool   // C02: every node saves a result rendering the whole context (minus webhook, legacy_extra)
-	ResultNames bool   // routers save results
-	Extra       func(f, n int, d NodeDef, node M) // last-minute decoration
-	Policy      string                            // C19: redaction policy of the trigger environment
-	NoName      bool                              // C19: contact without a name
-	InspectW    *lineWriter                       // C20: write inspection-vs-execution lines here
-	insp        *inspector
+	FlowType     string                            // messaging (default) or voice
+	RenderCtx    bool                              // C02: every node saves a result rendering the whole context (minus webhook, legacy_extra)
+	ResultNames  bool                              // routers save results
+	Extra        func(f, n int, d NodeDef, node M) // last-minute decoration
+	Policy       string                            // C19: redaction policy of the trigger environment
+	NoName       bool                              // C19: contact without a name
+	ResumePolicy string                            // C19: every resume carries an environment with this redaction policy
+	InspectW     *lineWriter                       // C20: write inspection-vs-execution lines here
+	insp         *inspector
 }
 
 func choiceWord(c int) string {
@@ -281,7 +282,9 @@ func planText(b *Behaviour) string {
 	return strings.Join(ws, " ")
 }
 
-func matTrigger(b *Behaviour, flow int, ftype string) []byte { return matTriggerOpts(b, flow, ftype, nil) }
+func matTrigger(b *Behaviour, flow int, ftype string) []byte {
+	return matTriggerOpts(b, flow, ftype, nil)
+}
 
 func matTriggerOpts(b *Behaviour, flow int, ftype string, opts *MatOpts) []byte {
 	contact := contactJSON()
@@ -311,7 +314,7 @@ func matTriggerOpts(b *Behaviour, flow int, ftype string, opts *MatOpts) []byte 
 		t["history"] = M{"parent_uuid": "cdf7ed27-5ad5-4028-b664-880fc7581c77", "ancestors": 1, "ancestors_since_input": 0}
 		t["run_summary"] = M{"uuid": "4213ac47-93fd-48c4-af12-7da8218ef09d", "flow": M{"uuid": "93c554a1-b90d-4892-b029-a2a87dec9b87", "name": "Other"},
 			"contact": M{"uuid": "c59b0033-e748-4240-9d4c-e85eb6800151", "name": "Jim", "created_on": "2018-01-01T12:00:00Z", "urns": parentURNs},
-			"status": "active", "results": M{"age": M{"name": "Age", "value": "33", "node_uuid": "cd2be8c4-59bc-453c-8777-dec9a80043b8", "created_on": "2000-01-01T00:00:00Z"}}}
+			"status":  "active", "results": M{"age": M{"name": "Age", "value": "33", "node_uuid": "cd2be8c4-59bc-453c-8777-dec9a80043b8", "created_on": "2000-01-01T00:00:00Z"}}}
 	default:
 		panic("unknown trigger kind " + b.Trig)
 	}
@@ -387,7 +390,9 @@ func newEngineBuilder(maxSteps, maxResumes int) *engine.Builder {
 	return b
 }
 
-func newEngine(maxSteps, maxResumes int) flows.Engine { return newEngineBuilder(maxSteps, maxResumes).Build() }
+func newEngine(maxSteps, maxResumes int) flows.Engine {
+	return newEngineBuilder(maxSteps, maxResumes).Build()
+}
 
 func loadAssets(data []byte) (flows.SessionAssets, error) {
 	src, err := static.NewSource(data)
@@ -463,24 +468,24 @@ type TEvent struct {
 }
 
 type TLine struct {
-	Src     string   `json:"src"`
-	K       int      `json:"k"`
-	Op      string   `json:"op"`
-	Kind    string   `json:"kind"`
-	Err     int      `json:"err"`
-	Status  string   `json:"status"`
-	Runs    []TRun   `json:"runs"`
-	Events  []TEvent `json:"events"`
-	Same    bool     `json:"same"` // session JSON byte-identical before and after the call
-	MaxSt   int      `json:"maxst"`
-	MaxRes  int      `json:"maxres"`
-	Faulted bool     `json:"faulted"`
-	Accepted int     `json:"accepted"` // resumes accepted so far (incl. this call)
-	Panic   string   `json:"panic"`
-	HitLimit bool    `json:"hitlimit"`   // a failure event says the step limit was reached
-	Hang    bool     `json:"hang"`       // the call did not return within the watchdog
-	Impossible bool  `json:"impossible"` // before the call: waiting run's flow missing / resume limit reached / node vanished / node lacks a wait
-	Generated bool   `json:"generated"`  // line comes from a generated behaviour (only modelled faults present)
+	Src        string   `json:"src"`
+	K          int      `json:"k"`
+	Op         string   `json:"op"`
+	Kind       string   `json:"kind"`
+	Err        int      `json:"err"`
+	Status     string   `json:"status"`
+	Runs       []TRun   `json:"runs"`
+	Events     []TEvent `json:"events"`
+	Same       bool     `json:"same"` // session JSON byte-identical before and after the call
+	MaxSt      int      `json:"maxst"`
+	MaxRes     int      `json:"maxres"`
+	Faulted    bool     `json:"faulted"`
+	Accepted   int      `json:"accepted"` // resumes accepted so far (incl. this call)
+	Panic      string   `json:"panic"`
+	HitLimit   bool     `json:"hitlimit"`   // a failure event says the step limit was reached
+	Hang       bool     `json:"hang"`       // the call did not return within the watchdog
+	Impossible bool     `json:"impossible"` // before the call: waiting run's flow missing / resume limit reached / node vanished / node lacks a wait
+	Generated  bool     `json:"generated"`  // line comes from a generated behaviour (only modelled faults present)
 }
 
 type flowTable struct {
